@@ -1281,6 +1281,8 @@ def gen_plan(seed: int, tier: str) -> dict:
                 else:
                     tasks.append({"t": "down"})
             ops.append({"op": "par", "id": nid(), "tasks": tasks})
+            if big:   # and once more, on another event loop
+                ops.append({"op": "par", "id": nid(), "tasks": [t for t in tasks if t["t"] == "lr"]})
     # bounded recovery: no faults, everything rewritten, every name loaded once
     ops.append({"op": "advance", "dt": 7})
     for n in names:
